@@ -2871,7 +2871,7 @@ get_number(int c) {
     loc.last_column = get_col_number();
 
     YYSTYPE result;
-    result.u.integer = strtol(num.c_str(), nullptr, 16);
+    result.u.integer = strtoull(num.c_str(), nullptr, 16);
 
     return get_literal(INTEGER, loc, num, result);
 
@@ -2890,7 +2890,7 @@ get_number(int c) {
     loc.last_column = get_col_number();
 
     YYSTYPE result;
-    result.u.integer = strtol(bin.c_str(), nullptr, 2);
+    result.u.integer = strtoull(bin.c_str(), nullptr, 2);
 
     return get_literal(INTEGER, loc, bin, result);
   }
@@ -2947,11 +2947,11 @@ get_number(int c) {
     // A leading zero implies an octal number.  strtol() is supposed to be
     // able to make this distinction by itself, but we'll do it explicitly
     // just to be sure.
-    result.u.integer = strtol(num.c_str(), nullptr, 8);
+    result.u.integer = strtoull(num.c_str(), nullptr, 8);
 
   } else {
     // A decimal (base 10) integer.
-    result.u.integer = strtol(num.c_str(), nullptr, 10);
+    result.u.integer = strtoull(num.c_str(), nullptr, 10);
   }
 
   return get_literal(INTEGER, loc, num, result);
